@@ -98,6 +98,8 @@ def case(task):
                 res['order'] = gc.order_dependence(
                     desc, seed, p, N, list(fwd), fwd, with_T=True,
                     vacuum=vacuum)
+                res['style'] = gc.input_style_dependence(
+                    desc, seed, p, N, list(fwd), fwd, with_T=True, vacuum=vacuum)
                 if st.Lambda != 0:
                     res['lamattr'] = gc.lambda_attribute_dependence(
                         desc, seed, p, N, list(fwd), fwd, with_T=True,
@@ -152,6 +154,15 @@ def judge(run, task, res):
                           "the cosmological constant is assigned to "
                           "rel.Lambda after construction instead of passed "
                           "as a keyword", {'task': res['task'], 'key': k})
+    for k, d in res.get('style', {}).items():
+        run.count('input_style_comparisons')
+        if not d <= 1e-9:
+            run.violation(f"C06:input-style:{k}",
+                          f"{tag}: {k} differs by {d:.2e} (relative) when "
+                          "metric, curvature and shift are given by "
+                          "components instead of arrays (fresh instance, "
+                          "reverse request order)",
+                          {'task': res['task'], 'key': k})
     for k, d in res.get('order', {}).items():
         run.count('order_comparisons')
         if not d <= 1e-9:
